@@ -2,12 +2,13 @@
    from doc/format.adoc (not from the writer).  Definitions only.  Clauses (each a boolean function of the image
    bytes, so that theorems can be stated per clause):
 
-     v_size    bytes_used <= file size, the file size is the next multiple of the device block size
+     v_size    bytes_used <= file size, the file size is the next multiple of the device block size, the padding is
+               zero bytes
      v_order   the section starts of the super block are strictly ordered as the format prescribes
                (96 <= inode table < directory table < [fragment table] < [export table] < id table < [xattr table]
                < bytes_used); an omitted table is 0xFFFFFFFFFFFFFFFF
      v_opts    "compressor options present" <-> one uncompressed metadata block right behind the super block, before
-               the inode table
+               the inode table; always present for LZ4, never for LZMA
      v_meta    inode table = [inode start, dir start) and directory table = [dir start, first lookup table block) are
                gap-free sequences of metadata blocks; every block: stored size <= 8 KiB, content <= 8 KiB, stored
                size <= content size (compressed) / = content size (uncompressed)
@@ -75,7 +76,8 @@ Section Valid.
 
   Definition v_size (img : list N) (s : SuperModel.super) : bool :=
     negb (devblk =? 0) && (s_bytes_used s <=? lenN img) &&
-    (lenN img mod devblk =? 0) && (lenN img <? s_bytes_used s + devblk).
+    (lenN img mod devblk =? 0) && (lenN img <? s_bytes_used s + devblk) &&
+    forallb (N.eqb 0) (dropN (s_bytes_used s) img).
 
   Definition opt_start (x : N) : list N := if present x then [x] else [].
 
@@ -85,11 +87,16 @@ Section Valid.
                opt_start (s_export_start s) ++ [s_id_start s] ++ opt_start (s_xattr_start s) ++ [s_bytes_used s]).
 
   Definition v_opts (img : list N) (s : SuperModel.super) : bool :=
-    if N.land (SuperModel.s_flags s) FLAG_COMP_OPTS =? 0 then true else
-    match read_block uncompress img SUPER_SIZE with
-    | Some (c, size, comp) => negb comp && (SUPER_SIZE + 2 + size <=? s_inode_start s)
-    | None => false
-    end.
+    let has := negb (N.land (SuperModel.s_flags s) FLAG_COMP_OPTS =? 0) in
+    (* "For LZ4, the compressor options always have to be present"; "The LZMA compressor does not support compressor
+       options, so this section must never be present" *)
+    (if SuperModel.s_comp_id s =? 5 then has else true) && (if SuperModel.s_comp_id s =? 2 then negb has else true) &&
+    (if has then
+       match read_block uncompress img SUPER_SIZE with
+       | Some (c, size, comp) => negb comp && (SUPER_SIZE + 2 + size <=? s_inode_start s)
+       | None => false
+       end
+     else true).
 
   (* the metadata blocks that tile [a, b) *)
   Definition area (img : list N) (a b : N) : option (list (list N * N * bool)) :=
